@@ -3,7 +3,7 @@ PROP = dict(
     module="M3d.Props.C06",
     corr=dict(quick=300, thorough=2500),
     gen=["Kernels"],
-    tie_modules=["M3d.Lemmas.KernelsTieSdf", "M3d.Lemmas.KernelsTieSdfPrim"],
+    tie_modules=["M3d.Lemmas.KernelsTieSdf", "M3d.Lemmas.KernelsTieSdfPrim", "M3d.Lemmas.KernelsTieSdfTri"],
     corr_theorems=(
         "b.* kinds compare the real Go outputs bit-for-bit with the Float run of the faithful models of lean/M3d/Model/Sdf.lean "
         "(sphereOut/circleOut, rectOut3/2, capsuleOut3/2, cylinderOut, coneOut, torusOut, tri2Out, segClosest3/2, triClosest/triDist, "
@@ -47,7 +47,12 @@ PROP = dict(
         "(<= 40 faces) queried at vertices, near face centroids and at random; 2-D meshes: star-shaped, regular, rectangular, two-loop, "
         "counter-clockwise and grid-rounded outlines (3..14 vertices) with zero-length segments in 3 of 4 cases (closing point repeated, "
         "vertices listed twice / three times), hierarchy from the listed, a shuffled or the GroupSegments order, queried around and beyond "
-        "the vertices that carry a zero-length piece, at vertices, next to segments, inside, far; profiles over Circle/Rect/Capsule/polar mesh with "
+        "the vertices that carry a zero-length piece, at vertices, next to segments, inside, far; collapsed 3-D triangles (segment a b "
+        "from the general/axis-aligned/dyadic vector generator at scales 1e-3..1e3, the four corner orders with a repeated corner, "
+        "drawn on purpose in every run: #stat tri3d/aab|abb|aba|baa) queried on the line of the segment (inside, at the ends, beyond), "
+        "at a, b and the midpoint, a hair off the segment, beyond an end, in general position and far away; three dyadic corners on a "
+        "line (cross product exactly 0); meshes with 1..3 collapsed slivers {f[k], f[k], f[k+1]} (any of the four orders) added on "
+        "edges of their faces, queried at the sliver's corners and midpoint, next to it, around it and at random; profiles over Circle/Rect/Capsule/polar mesh with "
         "queries on/between/outside the z-planes; ColliderToSDF over Sphere/Rect/Capsule with 1..40 iterations; TransformSDF and "
         "ColliderToSDF(TransformCollider) over Sphere/Circle, Rect, Capsule under a bare or joined (1..4 members) transform of "
         "Translate, Scale (|k| < 1, > 1, negative, 1e-3..1e3) and Rotation, 2-D and 3-D, queried at images of inside/outside/"
@@ -66,7 +71,9 @@ PROP = dict(
         "genericSDF family (out-pointers as Option arguments/results) that SDF, NormalSDF and PointSDF of Rect (2-D, 3-D), Capsule "
         "(2-D, 3-D), Cylinder (with filledCircleDist), Cone and Torus, for every combination of nil/non-nil pointers, return the value, "
         "normal and point of the hand models rectOut3/2, capsuleOut3/2, cylinderOut, coneOut, torusOut (rect*_sdf_family, "
-        "capsule*_sdf_family, cylinder_sdf_family, cone_sdf_family, torus_sdf_family), and that 2-D Segment.Normal is segNormal2; "
+        "capsule*_sdf_family, cylinder_sdf_family, cone_sdf_family, torus_sdf_family), and that 2-D Segment.Normal is segNormal2; M3d.KernelsTie.SdfTri.* (round 6) re-prove that the "
+        "regenerated 3-D Triangle.Dist, Triangle.Closest and Triangle.Segments are triDist/triClosest (triangle_dist_eq, "
+        "triangle_closest_eq; hypothesis TriFinite: the first edge distance is below the HasInf constant); "
         "running minima that the code starts at math.Inf(1) are tied under the explicit hypothesis that the first candidate is "
         "below the HasInf constant (RectFinite3/2, CylFinite, ConeFinite; true for every finite float); the translator itself is "
         "validated on every run by executing every exported generated definition at Float against the real function (kind gk, bit for bit)",
@@ -80,8 +87,14 @@ PROP = dict(
         "Cylinder/Cone/Torus *distance* values: region tests use normalised axes; the models are the regenerated source "
         "(KernelsTieSdfPrim) and run bit-for-bit (b.*), but that the value is the Euclidean distance is validated by the Go-side "
         "predicates (nearest point at reported distance, on the surface, sign <=> Contains, 1-Lipschitz), not proved",
-        "triangle_closest_optimal assumes a non-degenerate triangle (invertible (v1 v2 n), edges of positive length); Triangle.Dist is "
-        "tied by correspondence only (its interior branch |components.Z| equals the distance because n is a unit normal)",
+        "triangle_closest_optimal assumes a non-degenerate triangle (invertible (v1 v2 n), edges of positive length); Triangle.Dist of "
+        "such a triangle is tied by correspondence only (its interior branch |components.Z| equals the distance because n is a unit normal)",
+        "degenerate 3-D triangles: the theorems are about the float-run model triClosestSkip/triDistSkip (cross product exactly 0 => "
+        "normal 0*(1/0) = NaN => in-plane test fails; zero-length edge => NaN distance => skipped); that the Go code behaves like this "
+        "on floats is what b.tri3d/b.meshd check bit for bit with triClosestN/triDistN (same operations at Float, NaN by the order test "
+        "x <= x) and x.tri3d exactly; a triangle with three identical corners a (the loops skip all three edges) returns Closest = t[0] = a, "
+        "Dist = c.Dist(t[0]) since /repo d42705a (triangle_point_dist_exact; before: Coord3D{} and +Inf), nearly collinear triangles whose cross product is tiny but not 0 are not generated "
+        "(the junk normal makes the in-plane test arbitrary; the documentation does not address them)",
         "meshDistFunc branch-and-bound = linear scan is C08's theorem (M3d.Spatial.MDF.dist_spec); here the linear scan is the model "
         "and the real pruned search is compared with it (b.mesh value bit-for-bit, x.mesh exact minimiser)",
         "ray-collision counts and InBounds of meshSDF come from the real collider (C07) and are inputs of the b.mesh/b.mesh2 lines "
@@ -110,7 +123,9 @@ PROP = dict(
         "over faces of the face distance, outside value^2 = squared distance to the clamped point which is the nearest point of "
         "the box, nearest point on the face the normal names; Sphere/Circle value r-|p-c|, nearest point on the sphere, unit normal, "
         "incl. the centre; Segment.Closest (2D/3D) is the minimiser over the segment; Triangle.Closest is the nearest point of the triangle (projection onto the plane in the "
-        "interior region, edge loop otherwise); Capsule value = r - distance to the segment in all regions; normals of "
+        "interior region, edge loop otherwise); Triangle.Dist/Closest of a triangle collapsed to a segment (repeated corner) are the "
+        "distance to / nearest point of that segment and a mesh containing such slivers still reports the exhaustive minimum over all "
+        "points of all faces; Capsule value = r - distance to the segment in all regions; normals of "
         "Cylinder side/caps, Cone slanted side (repaired formula; the pre-repair formula is proved NOT orthogonal) and Torus are "
         "unit, orthogonal to the face's tangent directions and outward; profileSDF^2 = min over side/caps of the squared distance "
         "and its sign; profilePointSDF point at the reported distance; mesh sign = bounds && odd parity; the mesh magnitude (2-D and 3-D) is the "
